@@ -32,7 +32,8 @@ from ..seams import fs as fsseam
 from ..seams.clock import SimClock
 
 ERROR_KINDS = set(fsseam.OPEN_ERRNOS) | set(fsseam.EXTRA_ERRNOS) | {"read_eio", "refused", "http404", "http500",
-                                                                    "timeout", "reset"}
+                                                                    "timeout", "reset", "bad_status",
+                                                                    "incomplete_read"}
 CONTENT_KINDS = {"torn", "flip", "garbage", "truncated"}
 URLOPEN_KINDS = ["refused", "http404", "http500", "timeout", "reset", "truncated", "garbage"]
 SWEEP_FRACS = [0.0, 0.5, 0.999]
@@ -60,8 +61,9 @@ def kinds_for(op: str, extended: bool = False) -> list[dict]:
         out += [{"kind": "flip", "frac": f, "xor": 0x80} for f in SWEEP_FRACS]
         out += [{"kind": "garbage"}]
     elif op == "urlopen":
-        out += [{"kind": k} for k in ("refused", "http404", "http500", "timeout", "garbage")]
+        out += [{"kind": k} for k in ("refused", "http404", "http500", "timeout", "garbage", "bad_status")]
         out += [{"kind": "reset", "frac": f} for f in SWEEP_FRACS]
+        out += [{"kind": "incomplete_read", "frac": f} for f in SWEEP_FRACS]
         out += [{"kind": "truncated", "frac": f} for f in SWEEP_FRACS]
     return out
 
